@@ -74,10 +74,120 @@ def evaluate(run, pid, jobs_spec, want, ninputs=4):
         for j in jobs:
             yield _work(j)
         return
-    ctx = multiprocessing.get_context("fork")
-    with ctx.Pool(min(WORKERS, max(1, len(jobs) // 4))) as pool:
-        for rec in pool.imap_unordered(_work, jobs, chunksize=4):
-            yield rec
+    for j, rec in parallel_map(_work, jobs):
+        if rec is LOST: yield {"skipped": "worker process died or hung on this program", "seed": j[1], "index": j[0]}
+        else: yield rec
+
+
+LOST = object()
+
+
+def parallel_map(fn, items, workers=None):
+    """Yields (item, fn(item)) in completion order; (item, LOST) for an item whose worker died or stalled twice.
+    A job whose worker died or hung is retried once in a worker of its own."""
+    items = list(items)
+    keyed = list(enumerate(items))
+    nw = workers or min(WORKERS, max(1, len(items) // 4))
+    lost = []
+    for idx, res in _fan_out(fn, keyed, nw, lost):
+        yield items[idx], res
+    while lost:
+        batch, lost = lost[:WORKERS], lost[WORKERS:]
+        again = []
+        for idx, res in _fan_out(fn, batch, len(batch), again, prefetch=1):
+            yield items[idx], res
+        for idx, _ in again:
+            yield items[idx], LOST
+
+
+STALL_S = int(os.environ.get("VERIF_STALL_S", "420"))      # wall-clock seconds without any result before a worker is given up
+
+
+def _fan_out(fn, jobs, nw, lost, prefetch=2):
+    """Own worker pool (fork; jobs (index, payload) handed out on demand over one pipe per worker, results come back over
+    another): unlike multiprocessing.Pool it cannot hang when a worker dies or stalls — the jobs that produced no result
+    are appended to `lost`. Yields (index, result)."""
+    import pickle, struct, select, signal as _sig, time
+
+    def send(fd, obj):
+        data = pickle.dumps(obj)
+        os.write(fd, struct.pack("<I", len(data)) + data)
+
+    def child(cmd_r, res_w):
+        inp, out = os.fdopen(cmd_r, "rb"), os.fdopen(res_w, "wb")
+        while True:
+            hdr = inp.read(4)
+            if len(hdr) < 4: break
+            idx, payload = pickle.loads(inp.read(struct.unpack("<I", hdr)[0]))
+            data = pickle.dumps((idx, fn(payload)))
+            out.write(struct.pack("<I", len(data)) + data); out.flush()
+
+    queue = list(jobs)[::-1]
+    workers = {}            # pid -> [res_r, cmd_w, buffer, outstanding {idx: job}, last activity]
+    for w in range(min(nw, len(queue))):
+        cmd_r, cmd_w = os.pipe(); res_r, res_w = os.pipe()
+        pid = os.fork()
+        if pid == 0:
+            try:
+                os.close(cmd_w); os.close(res_r)
+                for st in workers.values():
+                    for fd in st[:2]:
+                        try: os.close(fd)
+                        except OSError: pass
+                child(cmd_r, res_w)
+            except BaseException:
+                traceback.print_exc()
+            finally:
+                os._exit(0)
+        os.close(cmd_r); os.close(res_w)
+        workers[pid] = [res_r, cmd_w, b"", {}, time.time()]
+
+    def feed(st):
+        while queue and len(st[3]) < prefetch:
+            job = queue.pop()
+            st[3][job[0]] = job
+            try: send(st[1], job)
+            except OSError:
+                return
+        if not queue and not st[3] and st[1] is not None:
+            try: os.close(st[1])
+            except OSError: pass
+            st[1] = None
+
+    def drop(pid, kill):
+        st = workers.pop(pid)
+        if kill:
+            try: os.kill(pid, _sig.SIGKILL)
+            except ProcessLookupError: pass
+        try: os.waitpid(pid, 0)
+        except ChildProcessError: pass
+        for fd in (st[0], st[1]):
+            if fd is not None:
+                try: os.close(fd)
+                except OSError: pass
+        lost.extend(st[3].values())
+
+    for st in workers.values(): feed(st)
+    while workers:
+        fds = {st[0]: pid for pid, st in workers.items()}
+        ready, _, _ = select.select(list(fds), [], [], 5.0)
+        now = time.time()
+        for fd in ready:
+            pid = fds[fd]; st = workers[pid]
+            chunk = os.read(fd, 1 << 20)
+            if not chunk:                       # EOF: finished, or died with jobs outstanding
+                drop(pid, False); continue
+            st[2] += chunk; st[4] = now
+            while len(st[2]) >= 4:
+                n = struct.unpack("<I", st[2][:4])[0]
+                if len(st[2]) < 4 + n: break
+                idx, rec = pickle.loads(st[2][4:4 + n]); st[2] = st[2][4 + n:]
+                st[3].pop(idx, None)
+                yield idx, rec
+            feed(st)
+        for pid, st in list(workers.items()):
+            if st[3] and now - st[4] > STALL_S: drop(pid, True)     # stalled on a job: give the worker up
+    lost.extend(queue)         # only if every worker was lost
 
 
 def eval_source(src_module, fname, inputs, want):
